@@ -17,6 +17,7 @@ import Ctrmml.Proofs.SeekAlive
 import Ctrmml.Proofs.SeekEnd
 import Ctrmml.Proofs.SeekFrom
 import Ctrmml.Proofs.SeekFlat
+import Ctrmml.Proofs.SeekFlatL
 namespace Ctrmml.C12
 open Ctrmml Player PlayerCh
 
@@ -366,6 +367,54 @@ theorem C12_example_flat_lands :
     s = iter (playTick exSong flatRoot pdAll) 6 initPS ∧
     (iter (playTick exSong flatRoot pdAll) 13 initPS).acc.enabled = false ∧
     (iter (playTick exSong flatRoot pdAll) 13 initPS).err = none := by
+  decide +kernel
+
+/-! ## Round 3, part 3: flat tracks with a loop point
+
+`FlatL root` (Proofs/SeekFlatL.lean, decidable) additionally allows SEGNO (the loop point) and
+explicit END events, with fewer than 49000 events.  Such a track plays forever when time passes
+between the loop point and the end; the fetch loop is bounded through the zero-time guard of the
+root END (`last_loop_jump_time`): within one run `play_time` is constant, so at most one jump back
+can happen per run -- at most `2 * length + 3` steps, below the model's budget. -/
+
+/-- **A flat track with a loop point never records an error** -/
+theorem noerr_of_flatL (song : Song) (root : List Event) (pd : Int → Bool) (h : FlatL root) (n : Nat) :
+    (iter (playTick song root pd) n initPS).err = none := by
+  have hpt : playTick song root pd = playTickS song root pd := funext (playTick_eq song root pd)
+  rw [hpt]
+  exact (iter_flatL song root pd h n initPS (initPS_flatL root)).err
+
+/-- **Seeking = playing on flat tracks with a loop point, no aliveness / no-error hypothesis** -/
+theorem C12_seek_eq_play_flatL (song : Song) (root : List Event) (pd : Int → Bool) (h : FlatL root)
+    (n : Nat) (hn : n ≥ 1) :
+    obs (skipTicks song root pd n initPS) = obs (iter (playTick song root pd) (n + 1) initPS) :=
+  C12_seek_eq_play_noerr song root pd n hn (noerr_of_flatL song root pd h n)
+
+/-- whole-state equality while the track is enabled -/
+theorem C12_seek_eq_play_flatL_enabled (song : Song) (root : List Event) (pd : Int → Bool) (h : FlatL root)
+    (n : Nat) (hn : n ≥ 1) (hen : (iter (playTick song root pd) n initPS).acc.enabled = true) :
+    skipTicks song root pd n initPS = iter (playTick song root pd) (n + 1) initPS :=
+  C12_seek_eq_play_of_alive_last song root pd n hn ⟨hen, noerr_of_flatL song root pd h n⟩
+
+/-- `c:2:1 L v+1 d:1:1`: plays forever, the volume grows by one per pass -/
+def flatLRoot : List Event :=
+  [ { type := Tables.ev_NOTE, param := 1, on := 2, off := 1 },
+    { type := Tables.ev_SEGNO, param := 0, on := 0, off := 0 },
+    { type := Tables.ev_VOL_REL, param := 1, on := 0, off := 0 },
+    { type := Tables.ev_NOTE, param := 2, on := 1, off := 1 } ]
+
+theorem flatLRoot_flatL : FlatL flatLRoot := by decide
+
+example : ¬ Flat flatLRoot := by decide
+
+example : obs (skipTicks exSong flatLRoot pdAll 20 initPS) = obs (iter (playTick exSong flatLRoot pdAll) 21 initPS) :=
+  C12_seek_eq_play_flatL exSong flatLRoot pdAll flatLRoot_flatL 20 (by decide)
+
+/-- evaluated: a seek by 20 lands in the ninth pass of the loop section (volume 9), still playing -/
+theorem C12_example_flatL_lands :
+    let s := skipTicks exSong flatLRoot pdAll 20 initPS
+    s.acc.enabled = true ∧ s.acc.playTime = 20 ∧ getCh s.ch Tables.ev_VOL_FINE = 9 ∧
+    s = iter (playTick exSong flatLRoot pdAll) 21 initPS := by
   decide +kernel
 
 end Ctrmml.C12
